@@ -1129,14 +1129,17 @@ struct MtCase {
     resolvers: usize,
     lat: u64,
     seed: u64,
+    /// > 0: the resolver tasks start each of their lookups together (a barrier of `resolvers`
+    /// tasks): lookups of one machine that begin in the same instant on different threads
+    lockstep: bool,
 }
 
 impl MtCase {
     fn to_line(&self) -> String {
-        format!("mt workers={} warm={} fresh={} readers={} resolvers={} lat={} seed={}", self.workers, self.warm, self.fresh, self.readers, self.resolvers, self.lat, self.seed)
+        format!("mt workers={} warm={} fresh={} readers={} resolvers={} lat={} seed={}{}", self.workers, self.warm, self.fresh, self.readers, self.resolvers, self.lat, self.seed, if self.lockstep { " lockstep=1" } else { "" })
     }
     fn parse(line: &str) -> Option<MtCase> {
-        let mut c = MtCase { workers: 4, warm: 64, fresh: 100, readers: 4, resolvers: 3, lat: 0, seed: 1 };
+        let mut c = MtCase { workers: 4, warm: 64, fresh: 100, readers: 4, resolvers: 3, lat: 0, seed: 1, lockstep: false };
         let mut w = line.split_whitespace();
         if w.next()? != "mt" {
             return None;
@@ -1151,10 +1154,14 @@ impl MtCase {
                 "resolvers" => c.resolvers = v.parse().ok()?,
                 "lat" => c.lat = v.parse().ok()?,
                 "seed" => c.seed = v.parse().ok()?,
+                "lockstep" => c.lockstep = v == "1",
                 _ => {}
             }
         }
-        if c.workers == 0 || c.warm == 0 || c.readers == 0 || c.resolvers == 0 || c.resolvers > 8 || c.warm + c.fresh > 8000 {
+        if c.lockstep && 2 * c.resolvers > c.workers {
+            return None;
+        }
+        if c.workers == 0 || c.warm == 0 || c.readers == 0 || c.resolvers == 0 || c.resolvers > 8 || c.warm + c.fresh > 15000 {
             // more than 10 queries pending at the server is F-C20-3, 16 384 sockets F-C20-4
             return None;
         }
@@ -1177,6 +1184,7 @@ struct MtShared {
     log: Arc<Log>,
     done: Notify,
     next_fresh: AtomicUsize,
+    arrived: AtomicUsize,
     stop: std::sync::atomic::AtomicBool,
     lookups: std::sync::atomic::AtomicU64,
     /// lookups that did not return the registered address: (name, what came back)
@@ -1244,11 +1252,39 @@ impl Protocol for MtDriver {
                 }));
             }
             let mut res = vec![];
-            for _ in 0..c.resolvers {
-                let (sh, dns, machine, c) = (sh.clone(), dns.clone(), machine.clone(), c.clone());
+            let gate = Arc::new(Barrier::new(c.resolvers));
+            for k in 0..c.resolvers {
+                let (sh, dns, machine, c, gate) = (sh.clone(), dns.clone(), machine.clone(), c.clone(), gate.clone());
                 res.push(tokio::spawn(async move {
+                    let mut round = 0usize;
                     loop {
-                        let i = sh.next_fresh.fetch_add(1, Ordering::SeqCst);
+                        let i = if c.lockstep {
+                            // task k resolves names k, k + R, k + 2R, ...; all tasks start each
+                            // round together
+                            let i = round * c.resolvers + k;
+                            if (round + 1) * c.resolvers > c.fresh {
+                                break;
+                            }
+                            gate.wait().await;
+                            // ... and leave the gate within the same few hundred nanoseconds, on
+                            // different threads: spin until everybody is through the barrier
+                            // (bounded: after a while the task yields, so a worker is never held)
+                            let target = (round + 1) * c.resolvers;
+                            sh.arrived.fetch_add(1, Ordering::SeqCst);
+                            let mut spins = 0u32;
+                            while sh.arrived.load(Ordering::Acquire) < target {
+                                std::hint::spin_loop();
+                                spins += 1;
+                                if spins % 50_000 == 0 {
+                                    tokio::task::yield_now().await;
+                                }
+                            }
+                            sh.next_fresh.fetch_add(1, Ordering::SeqCst);
+                            i
+                        } else {
+                            sh.next_fresh.fetch_add(1, Ordering::SeqCst)
+                        };
+                        round += 1;
                         if i >= c.fresh {
                             break;
                         }
@@ -1309,6 +1345,7 @@ fn run_mt_case(line: &str) -> CaseReport {
                 log: log.clone(),
                 done: Notify::new(),
                 next_fresh: AtomicUsize::new(0),
+                arrived: AtomicUsize::new(0),
                 stop: std::sync::atomic::AtomicBool::new(false),
                 lookups: std::sync::atomic::AtomicU64::new(0),
                 wrong: Mutex::new(vec![]),
@@ -1432,9 +1469,25 @@ fn run_mt_case(line: &str) -> CaseReport {
     rep
 }
 
-const RULE_MT: &str = "one client machine and the authoritative server on a real multi_thread runtime (4 / 8 / 16 workers), static MACs, no loss: 48..160 warm names resolved one after the other, then 3..12 reader tasks looking the warm names up in batches of 512 (each a lookup after a successful resolution: cache only) while 2..4 resolver tasks resolve a stream of 150..400 fresh names (each exactly once; every completion inserts into the cache being read) and look each up three more times; oracle from the frame log and the returned values only (no clock): every lookup returns the registered address, no query frame for a name after its first successful resolution; non-trivial = more than 1000 lookups and at least one fresh name resolved; distinct = hash of the case line";
+const RULE_MT: &str = "one client machine and the authoritative server on a real multi_thread runtime (4 / 8 / 16 workers), static MACs, no loss; three of four cases: 48..160 warm names resolved one after the other, then 3..12 reader tasks looking the warm names up in batches of 512 (each a lookup after a successful resolution: cache only) while 2..4 resolver tasks resolve a stream of 150..400 fresh names (each exactly once; every completion inserts into the cache being read) and look each up three more times; every fourth case: 4..6 resolver tasks on 16 workers that leave a spinning gate together before each of 4000..6000 lookups (lookups of one machine beginning within a few hundred nanoseconds on different threads); oracle from the frame log and the returned values only (no clock): every lookup returns the registered address, no query frame for a name after its first successful resolution; non-trivial = more than 1000 lookups and at least one fresh name resolved; distinct = hash of the case line";
 
 fn gen_mt(rng: &mut Rng, i: u64) -> MtCase {
+    if i % 4 == 3 {
+        // lookups of ONE machine that begin within the same few hundred nanoseconds on different
+        // threads (the resolver tasks leave a spinning gate together before every lookup): what
+        // a machine hands out per lookup -- socket, ephemeral port, session -- must be handed out
+        // once.  16 workers, so that the gated tasks (at most 6) never hold all of them.
+        return MtCase {
+            workers: 16,
+            warm: 8,
+            fresh: rng.range(4000, 6000) as usize,
+            readers: 2,
+            resolvers: rng.range(4, 6) as usize,
+            lat: 0,
+            seed: rng.next() % 1_000_000,
+            lockstep: true,
+        };
+    }
     let workers = [4usize, 8, 16][(i % 3) as usize];
     MtCase {
         workers,
@@ -1444,6 +1497,7 @@ fn gen_mt(rng: &mut Rng, i: u64) -> MtCase {
         resolvers: rng.range(2, 4) as usize,
         lat: *rng.pick(&[0u64, 0, 200]),
         seed: rng.next() % 1_000_000,
+        lockstep: false,
     }
 }
 
@@ -1464,6 +1518,7 @@ fn site_name(text: &str) -> String {
         ("Ipv4Address::new([rdata[0],rdata[1],rdata[2],rdata[3]])", "panic:index:client_rdata"),
         ("Ok(self.get_mapping(&name).unwrap())", "panic:unwrap:client_get_mapping"),
         ("*self.local_ports.write().unwrap()+=1;", "panic:overflow:ephemeral_port"),
+        ("*next_port+=1;", "panic:overflow:ephemeral_port"),
     ];
     for (k, v) in table {
         if t.contains(k) {
@@ -1523,7 +1578,12 @@ pub fn run(args: &Args) {
                     let cl = format!("crash {}", line);
                     out.line(&cl, &cl);
                     out.mark_nontrivial();
-                    out.fail(&format!("the simulation process died: {} (case `{}`)", ident, specs[i]), &ident);
+                    let what = if ident.contains("socket.connect(remote_sock_addr).await.unwrap()") {
+                        format!("the simulation process died while one client resolved registered names from several tasks at once: the socket of a lookup could not be connected ({}); lookups that begin in the same instant on different threads were given the same ephemeral port (case `{}`)", ident, specs[i])
+                    } else {
+                        format!("the simulation process died: {} (case `{}`)", ident, specs[i])
+                    };
+                    out.fail(&what, &ident);
                 }
             }
             out.end_case();
